@@ -25,6 +25,9 @@ REQUIRED_THEOREMS += ['state_of_interpreter_and_fiber']
 # who writes the state the mechanism models are about: the set of write sites per group of fields, regenerated on every run (Props/StateWrites)
 THEOREM_MODULES.append("Yarel.Props.StateWrites")
 REQUIRED_THEOREMS += ['writers_of_reuse_state']
+# what a run starts from and what reset restores, as written on this run (Props/GlueText)
+THEOREM_MODULES.append("Yarel.Props.GlueText")
+REQUIRED_THEOREMS += ['reset_as_modelled', 'reset_stack_as_modelled', 'execute_as_modelled', 'module_lookup_as_modelled']
 LEVEL = "proof"
 ASSUMPTIONS = [
     "residue = (exception-in-flight flag, class definition in progress, active fiber's stack/frames/handlers, fiber designators) as "
